@@ -60,6 +60,10 @@ MapS(keys, values, min, max, typed) ==
 PropS(name, type, req, rif, rifn, confl, def, dis, eid) ==
     [name |-> name, type |-> type, required |-> req, required_if |-> rif, required_if_not |-> rifn,
      conflicts |-> confl, default |-> def, disabled |-> dis, empty_is_default |-> eid]
+\* a property with a display name (NewDisplayValue); the semantics never looks at it - error reporting does (C17)
+PropD(name, type, req, display) ==
+    [name |-> name, type |-> type, required |-> req, required_if |-> <<>>, required_if_not |-> <<>>,
+     conflicts |-> <<>>, default |-> None, disabled |-> FALSE, empty_is_default |-> FALSE, display |-> display]
 \* a plain optional / required property
 Prop(name, type, req) == PropS(name, type, req, <<>>, <<>>, <<>>, None, FALSE, FALSE)
 ObjectS(id, props, layout, typed) == [kind |-> "object", id |-> id, props |-> props, layout |-> layout, typed |-> typed]
@@ -228,8 +232,9 @@ UnfoldIn(objs, s, d) ==
       [] s.kind = "ref" -> IF d = 0 THEN RefCut ELSE UnfoldIn(objs, ObjById(objs, s.id), d - 1)
       [] s.kind = "scope" -> UnfoldIn(s.objects, ObjById(s.objects, s.root), d)     \* an inner scope has its own table
       [] s.kind = "refcut" -> s
-\* a scope as seen by an argument of nesting depth n
-Unfold(scope, n) == UnfoldIn(scope.objects, ObjById(scope.objects, scope.root), n + 1)
+\* a scope as seen by an argument of nesting depth n: every level of the argument can pass through a chain
+\* of single-property inline shorthands, which visits every object of the scope at most once if it ends
+Unfold(scope, n) == UnfoldIn(scope.objects, ObjById(scope.objects, scope.root), (n + 1) * (Len(scope.objects) + 1))
 
 \* ------------------------------------------------------------------ bounded generators
 \* Option sets
